@@ -489,6 +489,15 @@ def run_check(prop, tier, seed, replay=None):
         extra = [a for a in axioms if a not in prop.allowed_axioms]
         if extra:
             broken.append({'kind': 'axioms', 'what': f'assumptions outside the allow-list: {extra}'})
+        if tier == 'thorough':
+            # the independent checker re-checks the compiled property module and everything it loads
+            rc, cout = sh(['coqchk', '-silent', '-o', '-Q', '.', 'AV', f'AV.props.{mod}'], 3600, cwd=COQ)
+            m = re.search(r'\* Axioms:\s*(.*?)\n\s*\n', cout, re.S)
+            ax = m.group(1).strip() if m else '?'
+            notes.append(f'coqchk -o AV.props.{mod}: exit {rc}, axioms: {ax}')
+            if rc != 0 or ax != '<none>':
+                broken.append({'kind': 'proof', 'what': f'coqchk did not accept AV.props.{mod} without axioms: exit {rc}, axioms {ax}; '
+                                                        + cout[-400:]})
     else:
         discharged = 0
 
